@@ -25,7 +25,10 @@ L = 131073
 # (VP differs from every other variant in its FIRST byte: a file set to VP is alone after the prefix stage, the later
 # stages never read it - whatever the cache holds for those stages is left as it is)
 VARIANTS = {"V0": ["base", L, 1], "V1": ["flip", L, 1, 60000], "V2": ["flip", L, 1, 70000], "VP": ["flip", L, 1, 0]}
-INITIAL = [("F1", "V0"), ("F2", "V0"), ("F3", "V1"), ("F4", "V2")]
+# (M*: 10000-byte files - between the prefix sizes 4096 / 8192 and 16384, so that --max-prefix-size decides whether the
+# prefix stage reads them completely (one chunk of the prefix size) or their first 4096 bytes (the rest in the contents stage))
+VARIANTS.update({"M0": ["base", 10000, 2], "MV": ["flip", 10000, 2, 9992]})
+INITIAL = [("F1", "V0"), ("F2", "V0"), ("F3", "V1"), ("F4", "V2"), ("M1", "M0"), ("M2", "M0")]
 EDITS_FULL = [
     ("set", "F2", "V1"), ("set", "F3", "V0"), ("set", "F4", "V1"), ("append", "F2"), ("truncate", "F2"),
     ("rename", "F1", "F1r"), ("recreate", "F2", "V1"), ("recreate", "F3", "V0"), ("hardlink", "F1", "F1h"),
@@ -52,6 +55,7 @@ CONFIGS = {
     "metro": ["--hash-fn", "metro"],
     "blake3": ["--hash-fn", "blake3"],
     "metro_p8k": ["--hash-fn", "metro", "--max-prefix-size", "8192"],
+    "metro_p16k": ["--hash-fn", "metro", "--max-prefix-size", "16384"],
     "blake3_p8k": ["--hash-fn", "blake3", "--max-prefix-size", "8192"],
     "metro_tr": ["--hash-fn", "metro"] + ["--transform", "cat"],
     "blake3_tr": ["--hash-fn", "blake3"] + ["--transform", "cat"],
@@ -117,6 +121,11 @@ def cases(tier, seed):
             for e1 in (("set", "F2", "V1"), ("set", "F3", "V0"), ("append", "F2"), ("recreate", "F2", "V1")):
                 for e2 in (("small", "s2"), ("set", "F2", "V2")):
                     out.append({"history": [[list(e1), c], [list(e2), wcfg]], "kills": False, "warm": [wcfg]})
+        # files whose length lies between two prefix sizes: the chunks asked for depend on --max-prefix-size
+        for wcfg, c in (("metro_p16k", "metro_p8k"), ("metro_p8k", "metro_p16k"), ("metro_p16k", "metro"), ("metro", "metro_p16k")):
+            for e1 in (("set", "M1", "MV"), ("set_older", "M1", "MV")):
+                for e2 in (("small", "s2"), ("set", "M2", "MV")):
+                    out.append({"history": [[list(e1), c], [list(e2), wcfg]], "kills": False, "warm": [wcfg]})
         # the same transform under another hash function (a new replica of cached content must still be matched)
         for c1, c2 in (("metro_tr", "blake3_tr"), ("blake3_tr", "metro_tr")):
             for e1 in (("create", "F5", "V0"), ("set", "F3", "V0")):
@@ -155,6 +164,11 @@ def cases(tier, seed):
         for e1, e2 in RESTORE_PAIRS:
             for cfg in CONFIGS:
                 out.append({"history": [[list(e1), cfg], [list(e2), cfg]], "kills": False})
+        for wcfg, c in itertools.permutations(("metro_p16k", "metro_p8k", "metro", "blake3_tr_p8k"), 2):
+            for e1 in (("set", "M1", "MV"), ("set_older", "M1", "MV"), ("append", "M1"), ("recreate", "M1", "MV")):
+                for e2 in (("small", "s2"), ("set", "M2", "MV"), ("set", "M1", "M0")):
+                    for warm in ([wcfg], [wcfg, c]):
+                        out.append({"history": [[list(e1), c], [list(e2), wcfg]], "kills": False, "warm": warm})
         for wcfg in ("metro", "metro_p8k", "blake3_tr", "blake3_tr_p8k", "metro_head"):
             for c in ("metro", "metro_p8k", "blake3_tr", "blake3_tr_p8k", "metro_head2", "blake3"):
                 if c == wcfg:
@@ -520,6 +534,6 @@ def finish(stats, tier):
     return []
 
 
-RULE += (" Since round 12 also: a rewrite that restores the first cached time after a run in which the file dropped out at the prefix stage (known finding), "
+RULE += (" Since round 12 also: two 10000-byte files (between the prefix sizes 4096 / 8192 / 16384) with runs that switch --max-prefix-size;  a rewrite that restores the first cached time after a run in which the file dropped out at the prefix stage (known finding), "
          "and histories whose cache was filled under another prefix size / hash function / transform only, so that a configuration's first run comes after the edit.")
 RULE += " Since round 11 also: initial modification times on a 1 s / 2 s grid with edits 1 ... 2000 ms after the file's own time."
